@@ -19,6 +19,9 @@ Step == /\ l <= Len(Ev)
              \/ (e.a = "K" /\ Clamp(e.i, e.x = "1"))
              \/ (e.a = "N" /\ Nice(e.i, e.x))
              \/ (e.a = "Y" /\ Copy(e.i))
+             \/ (e.a = "E" /\ RangeAgain(e.i, e.x))
+             \/ (e.a = "G" /\ DomainAgain(e.i, e.x))
+             \/ (e.a = "X" /\ FailedDomain(e.i))
              \/ (e.a = "F" /\ \E t \in 1..NS : ToString(t) = e.x /\ DomainFrom(e.i, t))
         /\ l' = l + 1 /\ UNCHANGED tid
 Finished == l > Len(Ev) /\ UNCHANGED tvars
